@@ -95,6 +95,13 @@ func replaySchedule(drv *Driver, r *Rng, n, nkeys int) (string, string, string) 
 		keys[t] = r.Intn(nkeys)
 		nodes[t] = &parser.MJMLNode{Text: fmt.Sprint("node-of-", t)}
 	}
+	fails := make([]bool, n)
+	errs := make([]error, n)
+	rerrs := make([]error, n)
+	for t := 0; t < n; t++ {
+		fails[t] = r.Bool(1, 3)
+		errs[t] = fmt.Errorf("parse error of thread %d", t)
+	}
 	var omu sync.Mutex
 	inside := map[int]int{}
 	overlap := false
@@ -105,7 +112,7 @@ func replaySchedule(drv *Driver, r *Rng, n, nkeys int) (string, string, string) 
 			c.tidOf[goid()] = t
 			c.mu.Unlock()
 			ready <- struct{}{}
-			res, _ := mjml.VerifSingleflightDo(uint64(1000+keys[t]), func() (*mjml.MJMLNode, error) {
+			res, rerr := mjml.VerifSingleflightDo(uint64(1000+keys[t]), func() (*mjml.MJMLNode, error) {
 				omu.Lock()
 				inside[keys[t]]++
 				if inside[keys[t]] > 1 {
@@ -116,9 +123,13 @@ func replaySchedule(drv *Driver, r *Rng, n, nkeys int) (string, string, string) 
 				omu.Lock()
 				inside[keys[t]]--
 				omu.Unlock()
+				if fails[t] {
+					return nil, errs[t] // a parse error: the leader's error must reach every waiter
+				}
 				return nodes[t], nil
 			})
 			results[t] = res
+			rerrs[t] = rerr
 			c.finish <- t
 		}(t)
 	}
@@ -203,12 +214,16 @@ func replaySchedule(drv *Driver, r *Rng, n, nkeys int) (string, string, string) 
 			// hand-over: the Model says whose parse result is returned
 			f := strings.Split(want, ":")
 			leader, _ := strconv.Atoi(f[1])
-			if results[t] != nodes[leader] {
+			if fails[leader] {
+				if results[t] != nil || rerrs[t] != errs[leader] {
+					return trace, fmt.Sprintf("thread %d returned (%v, %v), the goroutine that did the work (thread %d) failed with %q: every caller must receive that error", t, results[t], rerrs[t], leader, errs[leader]), "handover-wrong-result"
+				}
+			} else if results[t] != nodes[leader] || rerrs[t] != nil {
 				got := "nil"
 				if results[t] != nil {
 					got = results[t].Text
 				}
-				return trace, fmt.Sprintf("thread %d returned %s, model: result of leader %d", t, got, leader), "handover-wrong-result"
+				return trace, fmt.Sprintf("thread %d returned (%s, %v), model: result of leader %d", t, got, rerrs[t], leader), "handover-wrong-result"
 			}
 		case <-time.After(2 * time.Second):
 			abort()
@@ -347,13 +362,18 @@ func fullPathStress(res *Result, r *Rng, rounds int) {
 					mjml.VerifShiftExpiries(10 * time.Minute)
 					return
 				}
-				h, err := mjml.Render(docs[di], mjml.WithCache())
+				var h string
+				var err error
+				if p := safely(func() { h, err = mjml.Render(docs[di], mjml.WithCache()) }); p != nil {
+					bad.Store(fmt.Sprintf("doc %d: concurrent cached compilation PANICKED: %v", di, p))
+					return
+				}
 				e := ""
 				if err != nil {
 					e = err.Error()
 				}
 				if h != solo[di].html || e != solo[di].err {
-					bad.Store(fmt.Sprintf("doc %d: concurrent cached result differs from solo result", di))
+					bad.Store(fmt.Sprintf("doc %d: concurrent cached result differs from solo result (err %q, solo %q)", di, e, solo[di].err))
 				}
 			}(di, act)
 		}
